@@ -86,6 +86,15 @@
       `u8` channel ids, `Bytes` / `Vec<u8>` messages); a `Result` call whose result the caller inspects
       (`if let Err(e) = f(..)`, `match f(..) { Ok(..) => .., Err(..) => .. }`) is `Exec.attempt`: the `&mut` state the
       callee leaves behind is written back in both cases and the result becomes an `Except` value;
+    * a `type T = U;` alias (manifest `TypeAlias`) is `U`; `let x = map.get_mut(&k).unwrap()` makes `x` an alias of the
+      map entry (panic when the key is missing); a `&mut self` method call on an alias / place with further
+      `&mut` integer arguments (`channel.get_packets_to_send(&mut self.packet_sequence, &mut available, ..)`) writes
+      the receiver and those places back from the callee's returned state; `v.append(&mut w)` appends `w` (a
+      temporary that is dropped); `xs.iter().map(|pat| e).collect()` with a pure closure is `List.map`,
+      `slice.last()` / `.first()` are `getLast?` / `head?`; `OctetsMut::with_slice(&mut buffer)` over a LOCAL buffer
+      starts a cursor at offset 0 whose writes land in `buffer` (the buffer is re-read from the cursor after every
+      statement that moves the cursor); a value-position `match` / `if` whose arms also assign outer variables
+      returns them together with its value;
     * `std::io::Error` is the one-point type `IoError` (external types are mapped by a table in the
       translator's manifest; their content is never inspected by translated code);
     * the translator itself (that it emits the primitive that belongs to each construct) and
